@@ -141,6 +141,11 @@ RULE_GROUPS: Dict[str, Callable] = {
     'bw.build_node': bw.rule_build_node,
     'bw.recurrent_validations': bw.rule_recurrent_validations,
     'ha.active_mark_released': ha.rule_active_mark_released,
+    'ha.error_scan_is_the_subdag': ha.rule_error_scan_is_the_subdag,
+    'ha.test_and_create_atomic': ha.rule_test_and_create_atomic,
+    'ha.no_process_wide_registry': ha.rule_no_process_wide_registry,
+    'ha.store_refusal_not_swallowed': ha.rule_store_refusal_not_swallowed,
+    'ha.recurrent_flag_only_for_subgraph': ha.rule_recurrent_flag_only_for_subgraph,
     'fw.write_once_map': fw.rule_write_once_map,
 }
 
@@ -233,6 +238,11 @@ RULES: Dict[str, Tuple[str, str]] = {
     'BN-7': ('bw.build_node', 'deriving a node with build_node does not change the annotations of the class it derives from'),
     'BN-6': ('bw.build_node', 'two classes generated by build_node from one unnamed base get different node ids'),
     'FS-9': ('fw.write_once_map', 'save / load interpreted over an abstract file system obey the laws of a write-once map keyed exactly by the node id'),
+    'RC-12': ('ha.recurrent_flag_only_for_subgraph', 'only the sub-dag a recurrent driver cuts out from the start node of its subgraph is flagged recurrent'),
+    'AS-7': ('ha.store_refusal_not_swallowed', 'no except clause of the engine swallows an exception of the artifact store\'s save'),
+    'SH-10': ('ha.no_process_wide_registry', 'no look-up in a process-wide registry (asyncio.all_tasks ...) on the run path'),
+    'FS-10': ('ha.test_and_create_atomic', 'no suspension point between the existence test of save and the creation of the file'),
+    'OO-12': ('ha.error_scan_is_the_subdag', 'the error scan of a sub-dag answers for exactly the nodes of that sub-dag'),
     'OO-11': ('oo.candidate_started_lazily', 'the registry of started one-of candidates is only added to during a run'),
     'OO-10': ('oo.candidate_started_lazily', 'a one-of candidate is recorded as started only in the iteration of the candidate loop that starts it'),
     'RD-9': ('st.ready_covers_delivered_inputs', 'in a plain scope readiness waits for every predecessor that delivers a parameter, also outside the sub-dag being run'),
@@ -694,6 +704,14 @@ _add('C03', 'RD-10')
 _add('C02', 'ER-9')
 _add('C03', 'SW-4')
 _add('C10', 'OO-11')
+_add('C10', 'OO-12')
+_add('C05', 'OO-12')
+_add('C18', 'FS-10')
+_add('C08', 'SH-10')
+_add('C13', 'SH-10')
+_add('C19', 'AS-7')
+_add('C11', 'RC-12')
+_add('C04', 'RC-12')
 _add('C18', 'FS-9')
 _add('C17', 'SH-5')
 _add('C15', 'BN-6')
